@@ -61,6 +61,9 @@ class Monitor(object):
     def on_request(self, env, kind, rejected, before):
         pass
 
+    def on_crash(self, env, data):
+        pass
+
     def on_started(self, env, act):
         pass
 
@@ -103,7 +106,8 @@ class Policy(object):
         self.pause_as_paused = False
         self.cancel_as_canceled = False
         self.resume = True
-        self.crash = False
+        self.crash = False  # False | "bits" (every subset of the first crash_max boundaries) | "one" | "two"
+        self.crash_max = 6
         self.order = True
         self.max_inflight = 4
         self.item_value = lambda i: 100 + i
@@ -150,6 +154,7 @@ class Env(object):
         self.extra_req_done = False
         self.ctl_done = False
         self.script = []
+        self.offer_log = []
         self.cancel_from = None
         self.match_ctx = False
         self.held = []
@@ -230,6 +235,9 @@ class Env(object):
     def offers(self):
         nt = self.next_tasks()
         self.last_offer = nt
+        self.offer_log.append(json.dumps(
+            [[t["id"], t["route"], t.get("actions"), t.get("delay"), t.get("items_count"), t.get("concurrency"), t.get("ctx")] for t in nt],
+            sort_keys=True, default=str))
         for m in self.monitors:
             m.on_offer(self, nt)
         for t in nt:
@@ -318,6 +326,8 @@ class Env(object):
         data = self.api("serialize", self.c.serialize)
         data = json.loads(json.dumps(data))
         self.c = self.api("deserialize", conducting.WorkflowConductor.deserialize, data)
+        for m in self.monitors:
+            m.on_crash(self, data)
         self.crashes += 1
         self.log.append("CRASH")
         return data
@@ -389,7 +399,11 @@ class Env(object):
                 m.on_request(self, kind, e, before)
             if e is None:
                 self.offers()
-        if p.crash and self.ch.flag("crash%d" % b):
+        if p.crash == "bits" and b < p.crash_max and self.ch.flag("crash%d" % b):
+            self.crash()
+        elif p.crash == "one" and self.ch.lazy("crash_at").is_(b):
+            self.crash()
+        elif p.crash == "two" and (self.ch.lazy("crash_at").is_(b) or self.ch.lazy("crash2_at").is_(b)):
             self.crash()
 
     def run(self):
